@@ -39,7 +39,7 @@ func randRules(rnd *rand.Rand) [][2]int {
 func multiCases(thorough bool) {
 	rnd := rand.New(rand.NewSource(seedFromEnv()))
 	enc := json.NewEncoder(os.Stdout)
-	cnt := 80
+	cnt := 50
 	if thorough {
 		cnt = 1200
 	}
